@@ -25,7 +25,7 @@ func (m *Mutex) Lock() {
 	simrt.Yield("mutex.Lock", 1)
 	for !atomic.CompareAndSwapInt32(&m.state, 0, 1) {
 		if simrt.Active() {
-			simrt.WaitUntil("mutex", func() bool { return atomic.LoadInt32(&m.state) == 0 })
+			simrt.WaitUntilQuiet("mutex", func() bool { return atomic.LoadInt32(&m.state) == 0 })
 		} else {
 			runtime.Gosched()
 		}
@@ -51,7 +51,7 @@ func (m *RWMutex) Lock() {
 	simrt.Yield("rwmutex.Lock", 1)
 	for !atomic.CompareAndSwapInt32(&m.state, 0, -1) {
 		if simrt.Active() {
-			simrt.WaitUntil("rwmutex", func() bool { return atomic.LoadInt32(&m.state) == 0 })
+			simrt.WaitUntilQuiet("rwmutex", func() bool { return atomic.LoadInt32(&m.state) == 0 })
 		} else {
 			runtime.Gosched()
 		}
@@ -76,7 +76,7 @@ func (m *RWMutex) RLock() {
 			continue
 		}
 		if simrt.Active() {
-			simrt.WaitUntil("rwmutex.r", func() bool { return atomic.LoadInt32(&m.state) >= 0 })
+			simrt.WaitUntilQuiet("rwmutex.r", func() bool { return atomic.LoadInt32(&m.state) >= 0 })
 		} else {
 			runtime.Gosched()
 		}
@@ -130,7 +130,7 @@ func (wg *WaitGroup) Wait() {
 	simrt.Yield("wg.Wait", 1)
 	for atomic.LoadInt64(&wg.n) != 0 {
 		if simrt.Active() {
-			simrt.WaitUntil("waitgroup", func() bool { return atomic.LoadInt64(&wg.n) == 0 })
+			simrt.WaitUntilQuiet("waitgroup", func() bool { return atomic.LoadInt64(&wg.n) == 0 })
 		} else {
 			runtime.Gosched()
 		}
@@ -149,7 +149,7 @@ func (c *Cond) Wait() {
 	c.L.Unlock()
 	for atomic.LoadInt64(&c.gen) == g {
 		if simrt.Active() {
-			simrt.WaitUntil("cond", func() bool { return atomic.LoadInt64(&c.gen) != g })
+			simrt.WaitUntilQuiet("cond", func() bool { return atomic.LoadInt64(&c.gen) != g })
 		} else {
 			runtime.Gosched()
 		}
